@@ -78,6 +78,7 @@ def arity_obligations(run, wsdir_for_mir=None):
     common = dict(engine="mir-smt/z3", wall_s=time.time() - t0, solver_s=round(solver_s, 2), solver_checks=len(wrappers))
     mapping_obligation(run, wrappers, wsdir, root, env)
     lend_obligation(run, out, wsdir, root, env)
+    tuple_obligation(run, out, wsdir, root, env)
     if errs:
         run.ob("arity:wrappers", "inconclusive", reason="; ".join(errs[:3]), **common)
         return
@@ -161,6 +162,49 @@ def mapping_obligation(run, wrappers, wsdir, root, env):
     run.ob(oid, "fail", note=m.group(1)[:200], **common)
 
 
+def tuple_obligation(run, mir_path, wsdir, root, env):
+    """E3r: a fixed-size host shape is extracted from a script list only after its length was tested (lib/p_order.analyse_tuple_len)"""
+    import os, json, shutil, subprocess, re, time
+    import ws, p_order
+    oid = "tuple:fixed-size-shapes-test-the-list-length"
+    t0 = time.time()
+    try:
+        res = p_order.analyse_tuple_len(open(mir_path).read())
+    except Exception as ex:
+        run.ob(oid, "inconclusive", reason="extraction failed: %s" % str(ex)[-300:], engine="mir-smt")
+        return
+    common = dict(engine="mir-smt/z3", wall_s=round(time.time() - t0, 1), solver_s=round(sum(r["dt"] for r in res), 3), solver_checks=len(res))
+    run.samples.append({"engine": "mir-smt", "query": "exists a path in <(A, B, ..) as FromSteelVal>::from_steelval from the entry to the Ok(..) result that passes no branch on a comparison of the list's len() with a constant",
+                        "impls": [(r["shape"], r["length_tests"], r["res"]) for r in res]})
+    run.functions.append("conversions::<(A, B) as FromSteelVal>::from_steelval: the length test dominates the Ok result (MIR control flow)")
+    if not res or any(r["res"] == "error" for r in res):
+        run.ob(oid, "inconclusive", reason="no tuple conversion recognised or solver error", **common)
+        return
+    bad = [r for r in res if r["res"] == "sat"]
+    if not bad:
+        run.ob(oid, "pass", nonvacuous=True, note="%d tuple conversion(s): Ok only behind a test of the list's length" % len(res), **common)
+        return
+    what = "the conversion of a script list to the host shape %s reaches Ok on a path without a test of the list's length" % bad[0]["shape"]
+    try:
+        shutil.copy(os.path.join(ws.VERIF, "harness", "arity_replay.rs"), os.path.join(wsdir, "crates", "steel-core", "tests", "verif_arity_replay.rs"))
+        p = subprocess.run(["cargo", "test", "--offline", "-p", "steel-core", "--no-default-features", "--features", ws.FEATURES,
+                            "--test", "verif_arity_replay", "--target-dir", os.path.join(root, "tn"), "--", "tuple_len_replay", "--exact", "--nocapture"],
+                           cwd=wsdir, env=env, capture_output=True, text=True, timeout=2400)
+        m = re.search(r"OBSERVED: (.*)", p.stdout + p.stderr)
+    except Exception as ex:
+        run.ob(oid, "inconclusive", reason="replay failed: %s" % str(ex)[-300:], **common)
+        return
+    if not m:
+        run.ob(oid, "inconclusive", reason="solver: %s; only the two-element list converted natively" % what, **common)
+        return
+    d = os.path.join(ws.VERIF, "replays", run.pid)
+    os.makedirs(d, exist_ok=True)
+    path = os.path.join(d, "tuple_len.json")
+    json.dump({"property": run.pid, "kind": "tuple", "what": what, "observed": m.group(1), "how": "./check C20 --replay <this file>"}, open(path, "w"), indent=1)
+    run.violation("tuple:length-not-tested", "%s; natively: %s" % (what, m.group(1)[:300]), path)
+    run.ob(oid, "fail", note=m.group(1)[:200], **common)
+
+
 def lend_obligation(run, mir_path, wsdir, root, env):
     """E3i: the wrappers that hand out a reference derived from a lent reference mark the parent as borrowed, park the
     owner of the derived pointer in the nursery, and mark the parent the reference was derived from (lib/p_lend.py)."""
@@ -227,6 +271,20 @@ def replay(pid, path):
         p = subprocess.run(["cargo", "test", "--offline", "-p", "steel-core", "--no-default-features", "--features", ws.FEATURES,
                             "--test", "verif_arity_replay", "--target-dir", os.path.join(root, "tn"), "--", "mapping_replay", "--exact", "--nocapture"],
                            cwd=wsdir, env=dict(os.environ, VERIF_MAP_N=str(payload["n"])), capture_output=True, text=True)
+        m = re.search(r"OBSERVED: (.*)", p.stdout + p.stderr)
+        print("observed:", m.group(1) if m else "not reproduced")
+        if m:
+            print("VIOLATION property=%s replay=%s" % (pid, path))
+            return 1
+        return 0
+    if payload.get("kind") == "tuple":
+        import os, shutil, subprocess, re, ws
+        wsdir = ws.prepare("c20replay", [])
+        root = os.path.dirname(wsdir)
+        shutil.copy(os.path.join(ws.VERIF, "harness", "arity_replay.rs"), os.path.join(wsdir, "crates", "steel-core", "tests", "verif_arity_replay.rs"))
+        p = subprocess.run(["cargo", "test", "--offline", "-p", "steel-core", "--no-default-features", "--features", ws.FEATURES,
+                            "--test", "verif_arity_replay", "--target-dir", os.path.join(root, "tn"), "--", "tuple_len_replay", "--exact", "--nocapture"],
+                           cwd=wsdir, env=dict(os.environ, CARGO_NET_OFFLINE="true"), capture_output=True, text=True)
         m = re.search(r"OBSERVED: (.*)", p.stdout + p.stderr)
         print("observed:", m.group(1) if m else "not reproduced")
         if m:
